@@ -137,6 +137,9 @@ extern "C" void c10_quaternion_scale()
   Eigen::Matrix3d R1 = q.toRotationMatrix();
   Eigen::Matrix3d R2 = qs.normalized().toRotationMatrix();
   vf_check(same(R1, R2), "scaled-quaternion-gives-the-same-rotation");
+  // the library's own conversion must not depend on the quaternion's norm
+  Eigen::Vector3d back = quaternionToEulerAngles(qs);
+  vf_check(vf_angle_congruent(back[0], a.r) & vf_angle_congruent(back[1], a.p) & vf_angle_congruent(back[2], a.y), "angles-recovered-from-a-non-unit-quaternion");
   vf_reach("quaternion_scale");
 }
 
